@@ -159,7 +159,7 @@ pub fn eval(sc: &Scenario) -> CaseResult {
 pub fn run_prop(ctx: &Ctx) -> PropReport {
     let mut rep = PropReport::new("C15", "exploration");
     let seed = ctx.seed;
-    let reps = ctx.tier.pick(1u64, 4u64);
+    let reps = ctx.tier.pick(2u64, 8u64);
     rep.part(|| run_enum(ctx, "steady_lead",
         "bounded enumeration: lead k in -7..=7 x symmetric latency {0,5,10,20,35,50,75,100 ms} x fps {60,30,120} x input delay {0,2}; two peers, window 40, lock-stepped ticks after a warm-up, polls every millisecond between ticks (as the documented loop polls every iteration); oracle, sampled every 10 ticks after the warm-up: |frames_ahead_A - k| <= 1, |frames_ahead_B + k| <= 1, |sum| <= 1; every WaitRecommendation raised only with frames_ahead() >= 3 as read right after that call, skip_frames == frames_ahead(), >= 60 frames apart, and given at all when |k| >= 4; 2L <= ping <= 2L + one tick; one side's local_frames_behind == the other's remote_frames_behind (+-1); NotEnoughData before 1 s, numbers afterwards; non-trivial = >= 10 post-warm-up samples and stats available",
         NCASES * reps, move |i| case(i % NCASES, mix(seed, i / NCASES)), eval, true));
